@@ -7,6 +7,7 @@ hand-modelled and tied by the correspondence check.  Exits non-zero (message on 
 pattern is not found: the tie is then reported broken by bin/check.
 
 Usage: translate_consts.py [--repo /repo] [--out file]   (prints to stdout when --out is absent)
+       translate_consts.py [--repo /repo] --selftest      (mutation self-test of the anchored expressions, see MUTATIONS)
 """
 import re, sys, argparse, os
 
@@ -103,6 +104,15 @@ def fn_body(src, name):
                 return src[i:j + 1]
         j += 1
     raise TranslateError('unbalanced braces in %s' % name)
+
+
+def fn_text(src, name):
+    """signature + body of fn `name`"""
+    m = re.search(r'fn\s+' + re.escape(name) + r'\b', src)
+    if not m:
+        raise TranslateError('function %s not found' % name)
+    body = fn_body(src, name)
+    return src[m.start():src.index('{', m.end())] + body
 
 
 def rust_str_bytes(s):
@@ -294,6 +304,534 @@ def offsets(repo):
     return out, consts_
 
 
+# ---------------------------------------------------------------- anchored expressions (generic, table-driven)
+# Each row of ANCHORS ties ONE integer expression or boolean condition of the Rust source to ONE generated Coq definition.
+#   name    Coq name of the generated definition
+#   file    Rust file (relative to the repo)
+#   fn      enclosing fn (its brace-balanced body is searched; `impl` = optional regex of the enclosing impl block header)
+#   pat     regex locating the statement / struct field / condition inside the fn body; group `e` captures the expression text
+#   count   how many times `pat` must match in the fn body (default 1: a second copy appearing is also a broken tie)
+#   occ     which of those matches this row is about (default 0)
+#   params  ordered list of (Rust operand, Coq parameter): the variable renaming.  A Rust operand is an identifier, a dotted path,
+#           or `path.len()`.  `*x` derefs are dropped before the lookup.  Every identifier of the expression must be listed.
+#   ty      'Z' or 'N': the Coq type of the integer parameters / result (bool-valued conditions are detected and get `: bool`)
+#   mach    the machine type the code computes the expression in (comment only: casts are dropped, the mathematical expression is
+#           emitted; coq/I32.v proves separately that no intermediate value leaves that machine type)
+#   require optional list of regexes that must also match in the fn (signature or body) (the declarations that fix the machine type of the operands,
+#           e.g. `let len = arr.len() as i32;`): when one disappears the tie is broken
+#   safe    True: also emit NAME_SAFE : Prop, the conjunction of the range obligations of evaluating the expression in `mach`:
+#           one `IN_<mach> (a op b)` per + - * / unary minus and one `IN_<T> (a)` per `a as T`, each under the path condition
+#           (branches of `if`, short-circuit of && and ||) under which the code evaluates it.  coq/I32.v proves them.
+#   kind    'expr' (default) | 'width' (group `e` captures an integer type name, the definition is its size in bytes : nat)
+#           | 'require' (no definition: only the `require` patterns are checked, a comment is emitted; used for a guard at a call
+#           site that a proof in coq/ takes as hypothesis, e.g. select_by_indices returns before convert_slice when length == 0)
+# Supported Rust syntax: integer literals (dec / hex, `_`, type suffix), identifiers and paths, iN::MIN / iN::MAX / uN::MAX,
+# + - * (binary), unary minus, parentheses, < <= > >= == !=, && || !, `if c { a } else if d { b } else { c }`, `as <int type>`
+# and `.into()` (dropped, recorded), `*x` (dropped), `x.len()`.  Anything else, a pattern that is not found, or found a
+# different number of times than `count`: TranslateError (exit 2, bin/check reports the tie broken).  Never a guess.
+# `a > b` is emitted as `b <? a` and `a >= b` as `b <=? a` (N has no gtb/geb; same shape as the rest of the model).
+# In N, `-` is refused (N.sub truncates, usize does not).
+
+INT_TYPES = {'i8': 8, 'i16': 16, 'i32': 32, 'i64': 64, 'i128': 128, 'u8': 8, 'u16': 16, 'u32': 32, 'u64': 64, 'u128': 128,
+             'usize': 64, 'isize': 64}
+
+
+def int_const(path):
+    m = re.fullmatch(r'([iu])(8|16|32|64|128)::(MIN|MAX)', path)
+    if not m:
+        return None
+    bits = int(m.group(2))
+    if m.group(1) == 'i':
+        return -(1 << (bits - 1)) if m.group(3) == 'MIN' else (1 << (bits - 1)) - 1
+    return 0 if m.group(3) == 'MIN' else (1 << bits) - 1
+
+
+TOKEN_RE = re.compile(r'\s*(?:(?P<num>0x[0-9A-Fa-f_]+|[0-9][0-9_]*)(?P<suf>(?:[iu](?:8|16|32|64|128|size))?)(?![A-Za-z0-9_])'
+                      r'|(?P<id>[A-Za-z_][A-Za-z0-9_]*)'
+                      r'|(?P<op>&&|\|\||<=|>=|==|!=|::|[-+*()<>!{}.]))')
+
+
+def tokenize(text):
+    toks = []
+    i = 0
+    text = text.rstrip()
+    while i < len(text):
+        m = TOKEN_RE.match(text, i)
+        if not m or m.end() == i:
+            raise TranslateError('unsupported syntax at %r in expression %r' % (text[i:i + 12], text))
+        if m.group('num') is not None:
+            toks.append(('num', parse_lit(m.group('num')), m.group('suf')))
+        elif m.group('id') is not None:
+            toks.append(('id', m.group('id'), None))
+        else:
+            toks.append(('op', m.group('op'), None))
+        i = m.end()
+    return toks
+
+
+class ExprParser:
+    """Rust expression subset -> AST.  AST nodes: ('lit', n) ('var', rustname) ('neg', a) ('not', a) ('bin', op, a, b)
+    ('cmp', op, a, b) ('and', a, b) ('or', a, b) ('if', c, a, b).  Casts and derefs are dropped (cast types collected)."""
+
+    def __init__(self, text):
+        self.text = text
+        self.toks = tokenize(text)
+        self.i = 0
+        self.casts = []
+
+    def err(self, what):
+        raise TranslateError('%s in expression %r' % (what, self.text))
+
+    def peek(self, k=0):
+        return self.toks[self.i + k] if self.i + k < len(self.toks) else ('eof', None, None)
+
+    def at_op(self, *ops):
+        t = self.peek()
+        return t[0] == 'op' and t[1] in ops
+
+    def at_id(self, *ids):
+        t = self.peek()
+        return t[0] == 'id' and t[1] in ids
+
+    def take(self):
+        t = self.peek()
+        self.i += 1
+        return t
+
+    def expect_op(self, op):
+        if not self.at_op(op):
+            self.err('expected %r at token %d' % (op, self.i))
+        self.i += 1
+
+    def parse(self):
+        e = self.p_or()
+        if self.peek()[0] != 'eof':
+            self.err('trailing tokens %r' % (self.toks[self.i:],))
+        return e
+
+    def p_or(self):
+        a = self.p_and()
+        while self.at_op('||'):
+            self.take()
+            a = ('or', a, self.p_and())
+        return a
+
+    def p_and(self):
+        a = self.p_cmp()
+        while self.at_op('&&'):
+            self.take()
+            a = ('and', a, self.p_cmp())
+        return a
+
+    def p_cmp(self):
+        a = self.p_add()
+        if self.at_op('<', '<=', '>', '>=', '==', '!='):
+            op = self.take()[1]
+            b = self.p_add()
+            if self.at_op('<', '<=', '>', '>=', '==', '!='):
+                self.err('chained comparison')
+            return ('cmp', op, a, b)
+        return a
+
+    def p_add(self):
+        a = self.p_mul()
+        while self.at_op('+', '-'):
+            op = self.take()[1]
+            a = ('bin', op, a, self.p_mul())
+        return a
+
+    def p_mul(self):
+        a = self.p_cast()
+        while self.at_op('*'):
+            self.take()
+            a = ('bin', '*', a, self.p_cast())
+        return a
+
+    def p_cast(self):
+        a = self.p_unary()
+        while self.at_id('as'):
+            self.take()
+            t = self.take()
+            if t[0] != 'id' or t[1] not in INT_TYPES:
+                self.err('cast to unsupported type %r' % (t[1],))
+            self.casts.append(t[1])
+            a = ('cast', t[1], a)
+        return a
+
+    def p_unary(self):
+        if self.at_op('-'):
+            self.take()
+            return ('neg', self.p_unary())
+        if self.at_op('!'):
+            self.take()
+            return ('not', self.p_unary())
+        if self.at_op('*'):          # deref
+            self.take()
+            return self.p_unary()
+        return self.p_postfix()
+
+    def p_postfix(self):
+        a = self.p_primary()
+        while self.at_op('.'):
+            t1, t2, t3 = self.peek(1), self.peek(2), self.peek(3)
+            if t1[0] != 'id':
+                self.err('unsupported postfix')
+            call = t2 == ('op', '(', None) and t3 == ('op', ')', None)
+            if call and t1[1] == 'into':
+                self.i += 4
+                self.casts.append('into')
+            elif a[0] == 'var' and call and t1[1] == 'len':
+                self.i += 4
+                a = ('var', a[1] + '.len()')
+            elif a[0] == 'var' and not call and t2 != ('op', '(', None):
+                self.i += 2
+                a = ('var', a[1] + '.' + t1[1])
+            else:
+                self.err('unsupported method call .%s' % t1[1])
+        return a
+
+    def p_primary(self):
+        t = self.peek()
+        if t[0] == 'num':
+            self.take()
+            if t[2]:
+                self.casts.append(t[2])
+            return ('lit', t[1])
+        if t[0] == 'op' and t[1] == '(':
+            self.take()
+            e = self.p_or()
+            self.expect_op(')')
+            return e
+        if t[0] == 'id' and t[1] == 'if':
+            return self.p_if()
+        if t[0] == 'id':
+            if t[1] in ('as', 'else', 'let', 'match', 'return', 'mut', 'fn', 'loop', 'while', 'for', 'unsafe', 'true', 'false'):
+                self.err('unsupported keyword %r' % t[1])
+            self.take()
+            name = t[1]
+            while self.at_op('::'):
+                self.take()
+                n = self.take()
+                if n[0] != 'id':
+                    self.err('bad path')
+                name += '::' + n[1]
+            if '::' in name:
+                c = int_const(name)
+                if c is None:
+                    self.err('unsupported path %r' % name)
+                return ('lit', c)
+            if self.at_op('('):
+                self.err('unsupported call %s(...)' % name)
+            return ('var', name)
+        self.err('unexpected token %r' % (t[1],))
+
+    def p_if(self):
+        self.take()
+        c = self.p_or()
+        self.expect_op('{')
+        a = self.p_or()
+        self.expect_op('}')
+        if not self.at_id('else'):
+            self.err('if without else')
+        self.take()
+        if self.at_id('if'):
+            b = self.p_if()
+        else:
+            self.expect_op('{')
+            b = self.p_or()
+            self.expect_op('}')
+        return ('if', c, a, b)
+
+
+def expr_kind(e, text):
+    """'int' or 'bool'; TranslateError on an ill-typed expression"""
+    def bad():
+        raise TranslateError('ill-typed expression %r' % text)
+    t = e[0]
+    if t in ('lit', 'var'):
+        return 'int'
+    if t == 'cast':
+        return 'int' if expr_kind(e[2], text) == 'int' else bad()
+    if t == 'neg':
+        return 'int' if expr_kind(e[1], text) == 'int' else bad()
+    if t == 'not':
+        return 'bool' if expr_kind(e[1], text) == 'bool' else bad()
+    if t == 'bin':
+        return 'int' if expr_kind(e[2], text) == 'int' and expr_kind(e[3], text) == 'int' else bad()
+    if t == 'cmp':
+        return 'bool' if expr_kind(e[2], text) == 'int' and expr_kind(e[3], text) == 'int' else bad()
+    if t in ('and', 'or'):
+        return 'bool' if expr_kind(e[1], text) == 'bool' and expr_kind(e[2], text) == 'bool' else bad()
+    if t == 'if':
+        ka, kb = expr_kind(e[2], text), expr_kind(e[3], text)
+        return ka if expr_kind(e[1], text) == 'bool' and ka == kb else bad()
+    bad()
+
+
+def expr_vars(e, acc):
+    if e[0] == 'var':
+        acc.append(e[1])
+    else:
+        for x in e[1:]:
+            if isinstance(x, tuple):
+                expr_vars(x, acc)
+    return acc
+
+
+def gallina(e, names, ty, text):
+    """print the AST; level: 0 atom, 40 mul, 50 add, 100 anything else (always parenthesised as an operand)"""
+    def lvl(x):
+        if x[0] == 'cast':
+            return lvl(x[2])
+        if x[0] == 'lit':
+            return 0 if x[1] >= 0 else 100
+        if x[0] == 'var':
+            return 0
+        if x[0] == 'bin':
+            return 40 if x[1] == '*' else 50
+        return 100
+
+    def paren(x, maxlvl):
+        s = pr(x)
+        return s if lvl(x) <= maxlvl else '(' + s + ')'
+
+    def pr(x):
+        t = x[0]
+        if t == 'cast':
+            return pr(x[2])
+        if t == 'lit':
+            if x[1] < 0 and ty == 'N':
+                raise TranslateError('negative constant in an N expression %r' % text)
+            return str(x[1]) if x[1] >= 0 else '- %d' % -x[1]
+        if t == 'var':
+            if x[1] not in names:
+                raise TranslateError('unknown name %r in expression %r' % (x[1], text))
+            return names[x[1]]
+        if t == 'neg':
+            if ty == 'N':
+                raise TranslateError('unary minus in an N expression %r' % text)
+            return '- ' + paren(x[1], 0)
+        if t == 'not':
+            return 'negb ' + paren(x[1], 0)
+        if t == 'bin':
+            if x[1] == '-' and ty == 'N':
+                raise TranslateError('subtraction in an N expression %r' % text)
+            me = lvl(x)
+            return '%s %s %s' % (paren(x[2], me), x[1], paren(x[3], 40 if me == 50 else 0))
+        if t == 'cmp':
+            op, a, b = x[1], x[2], x[3]
+            if op in ('>', '>='):
+                a, b, op = b, a, {'>': '<', '>=': '<='}[op]
+            if op == '!=':
+                return 'negb (%s =? %s)' % (paren(a, 50), paren(b, 50))
+            return '%s %s %s' % (paren(a, 50), {'<': '<?', '<=': '<=?', '==': '=?'}[op], paren(b, 50))
+        if t in ('and', 'or'):
+            return '%s %s %s' % (paren(x[1], 0), '&&' if t == 'and' else '||', paren(x[2], 0))
+        if t == 'if':
+            return 'if %s then %s else %s' % (pr(x[1]), paren(x[2], 50), pr(x[3]) if x[3][0] == 'if' else paren(x[3], 50))
+        raise TranslateError('internal: node %r' % (t,))
+    return pr(e)
+
+
+def obligations(e, pc, mach, out):
+    """range obligations of evaluating e in machine type `mach` under the path condition pc (list of (cond ast, bool)):
+    every + - * and unary minus yields a value that must lie in `mach`; every `as T` must be applied to a value in T (then the
+    cast keeps the mathematical value).  `a || b` evaluates b only when a is false, `a && b` only when a is true, the branches
+    of an `if` only under the condition / its negation."""
+    t = e[0]
+    if t in ('lit', 'var'):
+        return out
+    if t == 'cast':
+        obligations(e[2], pc, mach, out)
+        if e[2][0] != 'lit':
+            out.append((pc, e[1], e[2]))
+        return out
+    if t == 'neg':
+        obligations(e[1], pc, mach, out)
+        if e[1][0] != 'lit':
+            out.append((pc, mach, e))
+        return out
+    if t == 'not':
+        return obligations(e[1], pc, mach, out)
+    if t == 'bin':
+        obligations(e[2], pc, mach, out)
+        obligations(e[3], pc, mach, out)
+        out.append((pc, mach, e))
+        return out
+    if t == 'cmp':
+        obligations(e[2], pc, mach, out)
+        return obligations(e[3], pc, mach, out)
+    if t in ('and', 'or'):
+        obligations(e[1], pc, mach, out)
+        return obligations(e[2], pc + [(e[1], t == 'and')], mach, out)
+    if t == 'if':
+        obligations(e[1], pc, mach, out)
+        obligations(e[2], pc + [(e[1], True)], mach, out)
+        return obligations(e[3], pc + [(e[1], False)], mach, out)
+    raise TranslateError('internal: node %r' % (t,))
+
+
+def safe_prop(ast, names, ty, mach, text):
+    obs = obligations(ast, [], mach, [])
+    if not obs:
+        return 'True'
+    parts = []
+    for pc, T, e in obs:
+        hyps = ''.join('(%s)%%%s = %s -> ' % (gallina(c, names, ty, text), ty, 'true' if b else 'false') for c, b in pc)
+        parts.append('(%sIN_%s (%s)%%%s)' % (hyps, T, gallina(e, names, ty, text), ty))
+    return ' /\\ '.join(parts)
+
+
+def translate_expr(text, params, ty, mach=None):
+    """Rust expression text -> (kind, Gallina body, cast types seen[, range obligations as a Prop when mach is given])"""
+    p = ExprParser(text)
+    ast = p.parse()
+    kind = expr_kind(ast, text)
+    names = dict(params)
+    used = set(expr_vars(ast, []))
+    for rust, _ in params:
+        if rust not in used:
+            raise TranslateError('operand %r no longer occurs in expression %r' % (rust, text))
+    if mach:
+        return kind, gallina(ast, names, ty, text), p.casts, safe_prop(ast, names, ty, mach, text)
+    return kind, gallina(ast, names, ty, text), p.casts
+
+
+def impl_body(src, header_re):
+    return block_after(src, header_re)
+
+
+_SRC_CACHE = {}
+
+
+def rust_src(repo, rel):
+    key = (repo, rel)
+    if key not in _SRC_CACHE:
+        _SRC_CACHE[key] = strip_comments_keep_strings(re.sub(r'/\*.*?\*/', '', open(os.path.join(repo, rel)).read(), flags=re.S))
+    return _SRC_CACHE[key]
+
+
+def anchored(repo, row):
+    """one ANCHORS row -> list of Coq lines (comment + definition)"""
+    src = rust_src(repo, row['file'])
+    if row.get('impl'):
+        src = impl_body(src, row['impl'])
+    body = fn_body(src, row['fn'])
+    whole = fn_text(src, row['fn'])
+    where = '%s fn %s' % (row['file'], row['fn'])
+    if row.get('kind') == 'require':
+        found = []
+        for rq in row['require']:
+            m = re.search(rq, whole)
+            if not m:
+                raise TranslateError('%s: %s: required context not found (pattern %s)' % (row['name'], where, rq))
+            found.append(re.sub(r'\s+', ' ', m.group(0).strip()))
+        return ['(* %s: %s: the source contains %s *)' % (row['name'], where, '; '.join('`%s`' % f for f in found))]
+    ms = list(re.finditer(row['pat'], body))
+    count = row.get('count', 1)
+    if len(ms) != count:
+        raise TranslateError('%s: %s: anchor found %d times, expected %d (pattern %s)' % (row['name'], where, len(ms), count, row['pat']))
+    m = ms[row.get('occ', 0)]
+    text = re.sub(r'\s+', ' ', m.group('e').strip())
+    ty = row.get('ty', 'Z')
+    if row.get('kind') == 'width':
+        if text not in INT_TYPES or text in ('usize', 'isize'):
+            raise TranslateError('%s: %s: %r is not a sized integer type' % (row['name'], where, text))
+        return ['(* %s: `%s` *)' % (where, re.sub(r'\s+', ' ', m.group(0).strip())),
+                'Definition %s : nat := %d%%nat.' % (row['name'], INT_TYPES[text] // 8)]
+    try:
+        safe = None
+        if row.get('safe'):
+            kind, body_, casts, safe = translate_expr(text, row['params'], ty, row['mach'])
+        else:
+            kind, body_, casts = translate_expr(text, row['params'], ty)
+    except TranslateError as e:
+        raise TranslateError('%s: %s: %s' % (row['name'], where, e))
+    seen = []
+    for p_ in [c for _, c in row['params']]:
+        if p_ not in seen:
+            seen.append(p_)
+    binder = ' (%s : %s)' % (' '.join(seen), ty) if seen else ''
+    note = 'computed in %s' % row['mach'] if row.get('mach') else ''
+    if casts:
+        note += ('; ' if note else '') + 'casts dropped: ' + ', '.join(casts)
+    for rq in row.get('require', []):
+        if not re.search(rq, whole):
+            raise TranslateError('%s: %s: required context not found (pattern %s)' % (row['name'], where, rq))
+    out = ['(* %s: `%s`%s *)' % (where, text.replace('*)', '* )').replace('(*', '( *'), (' -- ' + note) if note else ''),
+           'Definition %s%s : %s := (%s)%%%s.' % (row['name'], binder, 'bool' if kind == 'bool' else ty, body_, ty)]
+    if safe is not None:
+        out.append('Definition %s_SAFE%s : Prop := %s.' % (row['name'], binder, safe))
+    return out
+
+
+FN = 'src/functions.rs'
+SEL = 'src/jsonpath/selector.rs'
+_IL = [('index', 'index'), ('len', 'len')]
+_XL = [('idx', 'idx'), ('len', 'len')]
+_XN = [('idx', 'idx'), ('length', 'length')]
+_RESOLVE_INDEX = r'let\s+index\s*=\s*(?P<e>if\s+index\b[^;]*);'
+_RESOLVE_IDX = r'let\s+idx\s*=\s*(?P<e>if\s+\*idx\s*<[^;]*);'
+_GBK_REJECT = r'(?<!=\s)if\s+(?P<e>\*idx\b[^{]*?)\s*\{'      # an `if` statement (not `= if`) whose condition starts with *idx
+_GBK_INDEX = r'let\s+idx\s*=\s*(?P<e>if\s+\*idx\s*>=[^;]*);'
+_IF_INDEX = r'(?<!=\s)if\s+(?P<e>index\b[^{]*?)\s*\{'
+_IF_IDX = r'(?<!=\s)if\s+(?P<e>idx\b[^{]*?)\s*\{'
+_LAST = r'Index::LastIndex\(idx\)\s*=>\s*(?P<e>[^,]*),'
+
+_LEN_ARR_I32 = r'let\s+len\s*=\s*arr\.len\(\)\s*as\s+i32\s*;'
+_LEN_HDR_I32 = r'let\s+len\s*=\s*\(header\s*&\s*CONTAINER_HEADER_LEN_MASK\)\s*as\s+i32\s*;'
+_RQ_DBI_T = [r'\bindex\s*:\s*i32\b', _LEN_ARR_I32]
+_RQ_DBI_B = [r'\bindex\s*:\s*i32\b', _LEN_HDR_I32]
+_RQ_AI = [r'\bpos\s*:\s*i32\b', r'\(header\s*&\s*CONTAINER_HEADER_LEN_MASK\)\s*as\s+i32\b']
+_RQ_GBK = [r'let\s+length\s*=\s*arr\.len\(\)\s*as\s+i32\s*;', r'let\s+length\s*=\s*\(header\s*&\s*CONTAINER_HEADER_LEN_MASK\)\s*as\s+i32\s*;']
+_RQ_SEL = [r'\blength\s*:\s*i32\b', r'let\s+length\s*=\s*length\s+as\s+i64\s*;']
+
+ANCHORS = [
+    # ---- G1: index arithmetic (C20 part A) -------------------------------------------------------------------------------
+    # delete_by_index: text branch / byte branch
+    dict(name='DBI_T_RESOLVE', file=FN, fn='delete_by_index', pat=_RESOLVE_INDEX, params=_IL, mach='i32', safe=True, require=_RQ_DBI_T),
+    dict(name='DBI_T_KEEP', file=FN, fn='delete_by_index', pat=_IF_INDEX, params=_IL, mach='i32', safe=True, require=_RQ_DBI_T),
+    dict(name='DBI_B_RESOLVE', file=FN, fn='delete_jsonb_by_index', pat=_RESOLVE_INDEX, params=_IL, mach='i32', safe=True, require=_RQ_DBI_B),
+    dict(name='DBI_B_SKIP', file=FN, fn='delete_jsonb_by_index', pat=_IF_INDEX, params=_IL, mach='i32', safe=True, require=_RQ_DBI_B),
+    # array_insert_jsonb (the text branch re-encodes and calls it: one site)
+    dict(name='AI_NONARRAY_LEN', file=FN, fn='array_insert_jsonb',
+         pat=r'let\s+len\s*=\s*if\s+header\s*&\s*CONTAINER_HEADER_TYPE_MASK\s*==\s*ARRAY_CONTAINER_TAG\s*\{\s*\(header\s*&\s*CONTAINER_HEADER_LEN_MASK\)\s*as\s+i32\s*\}\s*else\s*\{\s*(?P<e>[^}]*?)\s*\}\s*;',
+         params=[], mach='i32', safe=True, require=_RQ_AI),
+    dict(name='AI_RESOLVE', file=FN, fn='array_insert_jsonb', pat=r'let\s+idx\s*=\s*(?P<e>if\s+pos\b[^;]*);',
+         params=[('pos', 'pos'), ('len', 'len')], mach='i32', safe=True, require=_RQ_AI),
+    dict(name='AI_CLAMP', file=FN, fn='array_insert_jsonb', pat=r'let\s+idx\s*=\s*(?P<e>if\s+idx\b[^;]*);', params=_XL, mach='i32', safe=True, require=_RQ_AI),
+    # get_by_keypath: occurrence 0 = Value (text) branch, occurrence 1 = byte branch
+    dict(name='GBK_T_REJECT', file=FN, fn='get_by_keypath', pat=_GBK_REJECT, count=2, occ=0, params=_XN, mach='i32', safe=True, require=_RQ_GBK),
+    dict(name='GBK_T_INDEX', file=FN, fn='get_by_keypath', pat=_GBK_INDEX, count=2, occ=0, params=_XN, mach='i32', safe=True, require=_RQ_GBK),
+    dict(name='GBK_B_REJECT', file=FN, fn='get_by_keypath', pat=_GBK_REJECT, count=2, occ=1, params=_XN, mach='i32', safe=True, require=_RQ_GBK),
+    dict(name='GBK_B_INDEX', file=FN, fn='get_by_keypath', pat=_GBK_INDEX, count=2, occ=1, params=_XN, mach='i32', safe=True, require=_RQ_GBK),
+    # delete_by_keypath: Value (text) walker / byte walker
+    dict(name='DKP_T_RESOLVE', file=FN, fn='delete_value_array_by_keypath', pat=_RESOLVE_IDX, params=_XL, mach='i32', safe=True, require=[_LEN_ARR_I32]),
+    dict(name='DKP_T_SKIP', file=FN, fn='delete_value_array_by_keypath', pat=_IF_IDX, params=_XL, mach='i32', safe=True, require=[_LEN_ARR_I32]),
+    dict(name='DKP_B_RESOLVE', file=FN, fn='delete_jsonb_array_by_keypath', pat=_RESOLVE_IDX, params=_XL, mach='i32', safe=True, require=[_LEN_HDR_I32]),
+    dict(name='DKP_B_SKIP', file=FN, fn='delete_jsonb_array_by_keypath', pat=_IF_IDX, params=_XL, mach='i32', safe=True, require=[_LEN_HDR_I32]),
+    # selector.rs convert_index / convert_slice
+    dict(name='CI_LAST', file=SEL, fn='convert_index', pat=_LAST, params=_XN, mach='i64', safe=True, require=_RQ_SEL),
+    dict(name='CI_INRANGE', file=SEL, fn='convert_index', pat=_IF_IDX, params=_XN, mach='i64', safe=True, require=_RQ_SEL),
+    dict(name='CS_START_LAST', file=SEL, fn='convert_slice', pat=_LAST, count=2, occ=0, params=_XN, mach='i64', safe=True, require=_RQ_SEL),
+    dict(name='CS_END_LAST', file=SEL, fn='convert_slice', pat=_LAST, count=2, occ=1, params=_XN, mach='i64', safe=True, require=_RQ_SEL),
+    dict(name='CS_EMPTY', file=SEL, fn='convert_slice', pat=r'(?<!=\s)if\s+(?P<e>start\b[^{]*?)\s*\{',
+         params=[('start', 'start'), ('end', 'stop'), ('length', 'length')], mach='i64', safe=True, require=_RQ_SEL),
+    dict(name='SBI_NONEMPTY', kind='require', file=SEL, fn='select_by_indices',      # hypothesis 0 < length of I32.CS_bounds_safe
+         require=[r'if\s+ty\s*!=\s*ARRAY_CONTAINER_TAG\s*\|\|\s*length\s*==\s*0\s*\{\s*return\s+Ok\(\(\)\)\s*;\s*\}']),
+    dict(name='CS_LO', file=SEL, fn='convert_slice', pat=r'let\s+start\s*=\s*(?P<e>if\s+start\b[^;]*);', params=[('start', 'start')], mach='i64', safe=True, require=_RQ_SEL),
+    dict(name='CS_HI', file=SEL, fn='convert_slice', pat=r'let\s+end\s*=\s*(?P<e>if\s+end\b[^;]*);',
+         params=[('end', 'stop'), ('length', 'length')], mach='i64', safe=True, require=_RQ_SEL),
+]
+
+
+def anchors(repo):
+    L = []
+    for row in ANCHORS:
+        L.extend(anchored(repo, row))
+    return L
+
+
 def coq_list(xs):
     return '[' + '; '.join(str(x) for x in xs) + ']'
 
@@ -306,9 +844,10 @@ def generate(repo):
     jsonb_set = is_jsonb_set(repo, C)
     delims = raw_string_delims(repo)
     offs, offc = offsets(repo)
+    anch = anchors(repo)
     L = []
     L.append('(* GENERATED by tools/translate_consts.py from the working tree of /repo. Do not edit. *)')
-    L.append('From Coq Require Import NArith List.')
+    L.append('From Coq Require Import NArith ZArith Bool List.')
     L.append('Import ListNotations.')
     L.append('Open Scope N_scope.')
     L.append('')
@@ -340,14 +879,120 @@ def generate(repo):
     for name, v in offc:
         L.append('Definition %s : N := %d.' % (name, v))
     L.append('')
+    L.append('(* value ranges of the machine integer types *)')
+    for T in ('i8', 'i16', 'i32', 'i64', 'u8', 'u16', 'u32', 'u64', 'usize'):
+        bits = INT_TYPES[T]
+        lo, hi = (-(1 << (bits - 1)), (1 << (bits - 1)) - 1) if T[0] == 'i' else (0, (1 << bits) - 1)
+        L.append('Definition IN_%s (z : Z) : Prop := (%s <= z <= %d)%%Z.' % (T, lo if lo >= 0 else '- %d' % -lo, hi))
+    L.append('(* anchored expressions (table ANCHORS of the translator): integer expressions and conditions, as written in the source *)')
+    L.extend(anch)
+    L.append('')
     return '\n'.join(L)
+
+
+# ---------------------------------------------------------------- self-test: single-token mutations of the sources
+# (file, fn the text must lie in (None = anywhere), old text, new text, occurrence inside that fn).  For every mutation the translator,
+# run on a mutated COPY of the sources, must either exit with TranslateError or produce a different Constants.v: then the
+# proofs are re-checked against the mutated formula.  "Same output" = the mutation went unnoticed = the self-test fails.
+MUTATIONS = [
+    # G1
+    (FN, 'delete_by_index', 'if index < 0 { len + index }', 'if index <= 0 { len + index }', 0),
+    (FN, 'delete_by_index', 'index >= 0 && index < len', 'index >= 0 && index <= len', 0),
+    (FN, 'delete_jsonb_by_index', 'index >= len', 'index > len', 0),
+    (FN, 'delete_jsonb_by_index', 'len + index', 'len - index', 0),
+    (FN, 'delete_jsonb_by_index', 'as i32', 'as i64', 0),
+    (FN, 'array_insert_jsonb', 'len + pos', 'len + pos + 1', 0),
+    (FN, 'array_insert_jsonb', 'idx > len', 'idx >= len', 0),
+    (FN, 'array_insert_jsonb', '        1\n', '        0\n', 0),
+    (FN, 'get_by_keypath', '*idx > length', '*idx >= length', 0),
+    (FN, 'get_by_keypath', '*idx > length', '*idx >= length', 1),
+    (FN, 'get_by_keypath', 'length + *idx < 0', 'length + *idx <= 0', 1),
+    (FN, 'get_by_keypath', '(length + *idx) as usize', '(length - *idx) as usize', 1),
+    (FN, 'get_by_keypath', 'if *idx > length || length + *idx < 0 {', 'if *idx > length {', 0),
+    (FN, 'delete_value_array_by_keypath', 'idx >= len', 'idx > len', 0),
+    (FN, 'delete_jsonb_array_by_keypath', 'if *idx < 0 { len + *idx }', 'if *idx < 0 { len + *idx - 1 }', 0),
+    (FN, 'delete_jsonb_array_by_keypath', 'idx < 0 || idx >= len', 'idx >= len', 0),
+    (SEL, 'convert_index', 'length + *idx as i64 - 1', 'length + *idx as i64', 0),
+    (SEL, 'convert_index', 'idx < length', 'idx <= length', 0),
+    (SEL, 'convert_index', 'let length = length as i64;', 'let length = length as i32;', 0),
+    (SEL, 'convert_slice', 'length + *idx as i64 - 1', 'length + *idx as i64 - 2', 1),
+    (SEL, 'convert_slice', 'start >= length', 'start > length', 0),
+    (SEL, 'convert_slice', '(length - 1) as usize', 'length as usize', 0),
+    (SEL, 'convert_slice', 'if start < 0 { 0 }', 'if start < 0 { 1 }', 0),
+    (SEL, 'select_by_indices', '|| length == 0', '', 0),
+]
+
+
+def fn_span(src, name):
+    m = re.search(r'fn\s+' + re.escape(name) + r'\b', src)
+    if not m:
+        raise TranslateError('selftest: function %s not found' % name)
+    i = src.index('{', m.end())
+    depth = 0
+    for j in range(i, len(src)):
+        if src[j] == '{':
+            depth += 1
+        elif src[j] == '}':
+            depth -= 1
+            if depth == 0:
+                return m.start(), j + 1
+    raise TranslateError('selftest: unbalanced braces in %s' % name)
+
+
+def mutate(src, fn, old, new, occ):
+    a, b = fn_span(src, fn) if fn else (0, len(src))
+    pos = a - 1
+    for _ in range(occ + 1):
+        pos = src.find(old, pos + 1, b)
+        if pos < 0:
+            raise TranslateError('selftest: %r (occurrence %d) not found in fn %s' % (old, occ, fn))
+    return src[:pos] + new + src[pos + len(old):]
+
+
+def selftest(repo, verbose=True):
+    """returns the number of unnoticed mutations (0 = pass)"""
+    import tempfile, shutil
+    base = generate(repo)
+    unnoticed = 0
+    for k, (rel, fn, old, new, occ) in enumerate(MUTATIONS):
+        tmp = tempfile.mkdtemp(prefix='jbmut')
+        try:
+            shutil.copytree(os.path.join(repo, 'src'), os.path.join(tmp, 'src'))
+            path = os.path.join(tmp, rel)
+            src = open(path).read()
+            open(path, 'w').write(mutate(src, fn, old.replace('\\n', '\n'), new.replace('\\n', '\n'), occ))
+            _SRC_CACHE.clear()
+            try:
+                out = generate(tmp)
+                verdict = 'definitions differ' if out != base else 'UNNOTICED'
+                if out != base:
+                    changed = [l.split()[1] for l in out.split('\n') if l.startswith('Definition') and l not in base]
+                    verdict += ' (%s)' % ', '.join(changed) if changed else ' (comment only)'
+            except TranslateError as e:
+                verdict = 'tie broken (exit 2): %s' % str(e)[:110]
+            if verdict == 'UNNOTICED':
+                unnoticed += 1
+            if verbose:
+                print('mutation %2d  %s fn %s: %r -> %r [#%d]: %s' % (k, os.path.basename(rel), fn, old, new, occ, verdict))
+        finally:
+            shutil.rmtree(tmp, ignore_errors=True)
+            _SRC_CACHE.clear()
+    print('selftest: %d mutations, %d unnoticed' % (len(MUTATIONS), unnoticed))
+    return unnoticed
 
 
 def main():
     ap = argparse.ArgumentParser()
     ap.add_argument('--repo', default='/repo')
     ap.add_argument('--out')
+    ap.add_argument('--selftest', action='store_true', help='apply MUTATIONS to a copy of the sources; every one must change the output or break the tie')
     a = ap.parse_args()
+    if a.selftest:
+        try:
+            sys.exit(1 if selftest(a.repo) else 0)
+        except (TranslateError, OSError, ValueError, KeyError) as e:
+            sys.stderr.write('translate_consts: %s\n' % e)
+            sys.exit(2)
     try:
         text = generate(a.repo)
     except (TranslateError, OSError, ValueError, KeyError) as e:
